@@ -338,7 +338,7 @@ Section Proofs.
     let l := steps_from size stops size 0 in
     let m := last (take_good l) O in
     run B H proto stops src dst =
-      if verdict size l
+      if (size =? 0)%nat || verdict size l
       then Done (mkOut (map mk l ++ [Over]) (acks_of l) (Z.of_nat m) (Z.of_nat m) (skipn m src) (firstn m dst ++ skipn m src))
       else SenderBlocked (map mk l ++ [Over]) (acks_of l).
   Proof.
@@ -351,11 +351,21 @@ Section Proofs.
     destruct (recv_honest l 0 [] Hin Hall') as [st' [Hr [Hm Ha]]].
     unfold r_init. change (mkR true 0%Z [] 0 []) with (mkR true (Z.of_nat 0) (firstn 0 dst) 0 []).
     rewrite Hr, Ha. cbn [app].
+    unfold recv_hash_acks.
+    assert (Hfin : forall ms, ms = Z.of_nat m ->
+      Done (mkOut (map mk l ++ [Over]) (acks_of l) (r_mstep st') ms (skipn (Z.to_nat ms) src)
+         (f_data (f_write (f_truncate (f_seek (mkFile dst (r_off st')) (Z.to_nat (r_mstep st'))) (Z.to_nat (r_mstep st')))
+                    (skipn (Z.to_nat ms) src)))) =
+      Done (mkOut (map mk l ++ [Over]) (acks_of l) (Z.of_nat m) (Z.of_nat m) (skipn m src) (firstn m dst ++ skipn m src))).
+    { intros ms ->. rewrite Hm. fold m. rewrite !Nat2Z.id.
+      destruct (agreed_good l size Hall) as [_ Hle]. fold m in Hle.
+      rewrite final_content by (unfold size in Hle; lia). reflexivity. }
+    destruct (Z.eqb_spec (Z.of_nat size) 0) as [Hz|Hnz].
+    { assert (Hs0 : size = O) by lia. rewrite (proj2 (Nat.eqb_eq size 0) Hs0). cbn [orb].
+      apply Hfin. destruct (agreed_good l size Hall) as [_ Hle]. fold m in Hle. lia. }
+    destruct (Nat.eqb_spec size 0) as [Hs0|_]; [lia|]. cbn [orb].
     change 0%Z with (Z.of_nat 0). rewrite (acks_spec size l 0 Hin Hall). fold m.
-    destruct (verdict size l); [|reflexivity].
-    rewrite Hm. fold m. rewrite !Nat2Z.id.
-    destruct (agreed_good l size Hall) as [_ Hle]. fold m in Hle.
-    rewrite final_content by (unfold size in Hle; lia). reflexivity.
+    destruct (verdict size l); [|reflexivity]. apply Hfin. reflexivity.
   Qed.
 
   Lemma run_no_exchange : forall proto stops,
@@ -389,7 +399,7 @@ Section Proofs.
         rewrite (run_exchange proto stops Hp Hne) in Hrun.
         set (size := Nat.min (length src) (length dst)) in *.
         set (l := steps_from size stops size 0) in *.
-        destruct (verdict size l) eqn:Hv; [|discriminate]. inversion Hrun; subst o. cbn [o_mrecv o_msend o_sent o_final].
+        destruct ((size =? 0)%nat || verdict size l) eqn:Hv; [|discriminate]. inversion Hrun; subst o. cbn [o_mrecv o_msend o_sent o_final].
         destruct (steps_incr size stops size 0) as [Hin Hall]; [lia|]. fold l in Hin, Hall.
         destruct (agreed_good l size Hall) as [Hg Hle].
         exists (last (take_good l) O). repeat split; auto.
@@ -399,7 +409,9 @@ Section Proofs.
         destruct stops as [k|]; [|reflexivity].
         unfold l in *. rewrite steps_stops in *.
         destruct (steps_incr size None size 0) as [Hin' Hall']; [lia|].
-        rewrite (verdict_prefix size _ k 0 Hin' Hall' Hv). reflexivity.
+        apply orb_true_iff in Hv. destruct Hv as [Hz|Hv].
+        * apply Nat.eqb_eq in Hz. rewrite Hz. cbn [steps_from Nat.ltb Nat.leb andb]. rewrite firstn_nil. reflexivity.
+        * rewrite (verdict_prefix size _ k 0 Hin' Hall' Hv). reflexivity.
   Qed.
 
   (* progress: without an early stop the exchange completes, unless the source is empty *)
@@ -415,7 +427,7 @@ Section Proofs.
         assert (Hpos : (0 < size)%nat).
         { unfold size. destruct src; [congruence|]. rewrite Hd. cbn [length]. lia. }
         destruct (steps_last size size 0 Hpos) as [Hn Hl]; [lia|].
-        rewrite (verdict_last size _ 0 Hn Hl). eauto.
+        rewrite (verdict_last size _ 0 Hn Hl), orb_true_r. eauto.
   Qed.
 
   (* ... and with an early stop of the hash sender as well, provided the stop comes after the
@@ -439,15 +451,16 @@ Section Proofs.
         rewrite steps_stops.
         pose proof (good_blocks_length size size 0) as Hgl. unfold Resume.block_end in Hgl.
         cbn [Nat.mul Nat.min] in Hgl.
-        rewrite (verdict_firstn size _ k 0 Hin Hall Hn Hl) by lia. eauto.
+        rewrite (verdict_firstn size _ k 0 Hin Hall Hn Hl) by lia. rewrite orb_true_r. eauto.
   Qed.
 
-  (* the stall: an empty source over a non-empty destination never gets its verdict *)
-  Lemma run_empty_source_blocks : forall proto stops, (proto <? Consts.resume_min_protocol)%N = false ->
-    src = [] -> dst <> [] -> run B H proto stops src dst = SenderBlocked [Over] [].
+  (* an empty source over a non-empty destination: only Over is sent, no ack is awaited, the
+     destination is cut to nothing *)
+  Lemma run_empty_source_done : forall proto stops, (proto <? Consts.resume_min_protocol)%N = false ->
+    src = [] -> dst <> [] -> run B H proto stops src dst = Done (mkOut [Over] [] 0%Z 0%Z [] []).
   Proof.
     intros proto stops Hp Hs Hd. rewrite (run_exchange proto stops Hp Hd). rewrite Hs. cbn [length Nat.min].
-    cbn [steps_from Nat.ltb Nat.leb andb verdict map app acks_of]. reflexivity.
+    cbn [steps_from Nat.ltb Nat.leb Nat.eqb andb orb verdict map app acks_of take_good last firstn skipn Z.of_nat]. reflexivity.
   Qed.
 End Proofs.
 
